@@ -279,18 +279,31 @@ class Order:
 
     # ---- operands ----
     def const_of(self, body, op, depth=0):
-        """constant value string of an operand (following single-def copies), else None."""
+        """constant value (decimal string) of an operand, following single-def copies and folding
+        integer binary operations on constants; else None."""
         k = op.get("k")
         if k is not None:
             return k.get("v")
-        if depth > 6:
+        if depth > 8:
             return None
         l = op_local(op)
+        if op_place(op)["p"]:
+            return None
         ds = body.defs().get(l, [])
         if len(ds) == 1 and ds[0][0] == "assign":
             rv = ds[0][3]
             if rv["k"] in ("use", "cast") and rv["ops"]:
                 return self.const_of(body, rv["ops"][0], depth + 1)
+            if rv["k"] == "bin":
+                a = self.const_of(body, rv["ops"][0], depth + 1)
+                b = self.const_of(body, rv["ops"][1], depth + 1)
+                if a is None or b is None:
+                    return None
+                a, b = int(a), int(b)
+                f = {"BitOr": lambda: a | b, "BitAnd": lambda: a & b, "Add": lambda: a + b, "Sub": lambda: a - b,
+                     "Mul": lambda: a * b, "BitXor": lambda: a ^ b, "Shl": lambda: a << b,
+                     "AddWithOverflow": lambda: a + b, "MulWithOverflow": lambda: a * b}.get(rv["op"])
+                return str(f()) if f else None
         return None
 
     def guard_local_of(self, body, op, depth=0):
@@ -321,6 +334,33 @@ class Order:
                     if r is not None:
                         return r
         return None
+
+    def result_origin(self, body, op, depth=0):
+        """callee names whose *result* an operand carries (through moves, field/downcast
+        projections, Try::branch, map_err/into conversions) — not the callee's arguments."""
+        if depth > 12:
+            return set()
+        p = op_place(op)
+        if p is None:
+            return set()
+        out = set()
+        for d in body.defs().get(p["l"], []):
+            if d[0] == "assign":
+                rv = d[3]
+                for o in rv.get("ops", [])[:1]:
+                    out |= self.result_origin(body, o, depth + 1)
+                if "place" in rv:
+                    out |= self.result_origin(body, {"c": rv["place"]}, depth + 1)
+            elif d[0] == "call":
+                t = d[2]
+                nm = names(t)
+                if any(("Try>::branch" in n) or n.endswith("::map_err") or n.endswith("::into")
+                       or n.endswith("::from") or n.endswith("::ok_or") or n.endswith("::ok_or_else") for n in nm) \
+                        and t["args"]:
+                    out |= self.result_origin(body, t["args"][0], depth + 1)
+                else:
+                    out.update(nm)
+        return out
 
     def slice_back(self, body, op, maxn=400):
         """backward data-dependence slice of an operand: -> dict(calls=set of callee names,
